@@ -634,8 +634,12 @@ class ShortTimeFourierTransformFrameComputer(LinearFilterBankFrameComputer):
         num_frames = max(0, (len(signal) + frame_shift // 2) // frame_shift)
         total_len = (num_frames - 1) * frame_shift - pad_left + frame_length
         pad_right = max(0, total_len - len(signal))
-        if pad_left or pad_right:
-            signal = np.pad(signal, (pad_left, pad_right), "symmetric")
+        if pad_left > 0 or pad_right:
+            signal = np.pad(signal, (max(0, pad_left), pad_right), "symmetric")
+        if pad_left < 0:
+            # with kaldi_shift and a frame shift exceeding the frame length, the first
+            # frame starts after the beginning of the signal
+            signal = signal[-pad_left:]
         coeffs = np.zeros((num_frames, self.num_coeffs), dtype=signal.dtype)
         for frame_idx in range(num_frames):
             frame_left = frame_idx * frame_shift
